@@ -4,7 +4,12 @@ from wt_common import WT_LEAN, WT_TRUST, wt_engine, e2e_engine, E2E_TRUST
 PROP = {
     "generated": [],
     "lean_modules": WT_LEAN + ["SwimVerif.Proofs.MapQueue", "SwimVerif.Proofs.AgentMapQueue",
-                               "SwimVerif.Model.MapLane", "SwimVerif.Model.EpochQueue"],
+                               "SwimVerif.Model.MapLane", "SwimVerif.Model.EpochQueue",
+                               "SwimVerif.Proofs.AssocKeys", "SwimVerif.Proofs.EpochQueue",
+                               "SwimVerif.Proofs.EpochQueueInv", "SwimVerif.Proofs.EpochQueueRun",
+                               "SwimVerif.Proofs.EpochQueueCompose", "SwimVerif.Proofs.MapLaneTakeDrop",
+                               "SwimVerif.Proofs.MapQueueSampled", "SwimVerif.Proofs.MapCompose",
+                               "SwimVerif.Proofs.MapLaneAgent"],
     "engines": [
         e2e_engine("C02"),
         wt_engine("C02"),
@@ -19,13 +24,20 @@ PROP = {
                   "runtime: applyAll(popped ++ queue) = applyAll(pushed), at most one operation per key, clear only "
                   "at the head (never lost or overtaken); agent: whenever the key-only event queue is empty an "
                   "observer's replica equals the lane's map (values read when written), with the per-key invariant "
-                  "in between. The faithful index models (head_epoch / epoch_map mod 2^64) of both real queues are "
-                  "tied to the real EventQueue and MapOperationQueue (epochs seeded up to 2^64-1) and to the "
-                  "specification queue by execution on every generated step; the real MapLane (BTreeMap backing: "
+                  "in between; composition: both queues empty => the remote's replica is the lane's map; per-key "
+                  "sampling (what is popped about a key is a sub-sequence of what was pushed about it). The faithful "
+                  "index models (head_epoch / epoch_map mod 2^64) of both real queues are PROVED to refine the "
+                  "specification queue along every run holding fewer than 2^64-1 entries (index invariant = the "
+                  "executable invOk, preserved by push/pop across wrap-around, any initial head_epoch), and are tied "
+                  "to the real EventQueue and MapOperationQueue (epochs seeded up to 2^64-1) by execution on every "
+                  "generated step; take/drop leave exactly content.drop n / content.take n (map proved sorted along "
+                  "every run); the real MapLane (BTreeMap backing: "
                   "update/remove/clear/take/drop/sync/write_to_buffer) and the real uplink map path are tied by "
                   "differential execution; monitors check replica convergence at quiescence.",
-    "level_note": "Index-invariant => specification refinement for the wrapping epochs, per-key sampling and the "
-                  "take/drop key-order statement are open as theorems (checked by execution/monitor). Recon key "
+    "level_note": "No open statements. The lane model (sorted map, indexed event queue, WriteQueues alternation with "
+                  "sync requests, vanished-key loop, take/drop) is proved to refine the specification agent and to "
+                  "converge; the composition agent queue + runtime queue is proved at specification level, the "
+                  "runtime side of it is tied to the Uplinks model by differential execution. Recon key "
                   "equality is represented by key classes validated against compare_recon_values at harness start.",
     "trusted_base": COMMON_TRUST + WT_TRUST + E2E_TRUST,
     "assumptions": ["queues hold fewer than 2^64 entries", "Ord on keys agrees with the Recon order (take/drop)"],
